@@ -104,30 +104,20 @@ Print Assumptions C08_otto_define_keeps_invariant.
    holes, inherited index properties, a counted length getter), every argument list and every callback script,
    exchanging the clamps
    changes neither the result nor the receiver nor the callback log, whatever [[DefineOwnProperty]] is used;
-   C08_define_refines above relates the two [[DefineOwnProperty]] functions.  Apart from the order inside reverse (below) there is no other
-   difference left between the model of otto and ES5 (toString calls join without arguments and the callback methods read length
-   before the IsCallable test in both, since 4b9c107 and fcc8076). *)
+   C08_define_refines above relates the two [[DefineOwnProperty]] functions.  There is no other difference left
+   between the model of otto and ES5 (toString calls join without arguments and the callback methods read length
+   before the IsCallable test in both, reverse Gets both values before both presence tests in both, since 4b9c107,
+   fcc8076 and c7552c5). *)
 Theorem C08_methods_refine :
-  otto = with_otto_clamps otto_def_array true /\ es5 = with_es5_clamps def_array false /\
-  forall df rh m args s,
-    match method (with_otto_clamps df rh) m, method (with_es5_clamps df rh) m with
+  otto = with_otto_clamps otto_def_array /\ es5 = with_es5_clamps def_array /\
+  forall df m args s,
+    match method (with_otto_clamps df) m, method (with_es5_clamps df) m with
     | Some f1, Some f2 => f1 args s = f2 args s
     | None, None => True
     | _, _ => False
     end.
 Proof. split; [reflexivity | split; [reflexivity | exact methods_clamps]]. Qed.
 Print Assumptions C08_methods_refine.
-
-(* the boolean above is the one place where builtin_array.go is not the step list: reverse asks HasProperty for both
-   elements before it Gets either value (15.4.4.8 step 6: both Gets first).  Witness: [3,"x"] whose element 1 is a getter
-   that sets the length to 0: ES5 ends with an empty array, otto with [8,3] *)
-Theorem C08_reverse_order_refuted : exists s, m_reverse otto [] s <> m_reverse es5 [] s.
-Proof.
-  exists (mkS (mkO true true [(KLen, mkP (VNum 2) true false false); (KI 0, mkP (VNum 3) true true true);
-                               (KI 1, mkP (VGet 32 8 4 0 0) false true true)] []) [] [] false []).
-  vm_compute. discriminate.
-Qed.
-Print Assumptions C08_reverse_order_refuted.
 
 (* ToString(n) of every integer n >= 0 is classified as the name KI n (so the 15.4.4 algorithms, which
    address elements by ToString(k), address exactly KI k), it is an array index exactly when n < 2^32 - 1,
